@@ -55,15 +55,13 @@ class Run:
         self.failed = False
         self.bus = instrument.Bus(ties.make_policy(case.get('tie', 'prng'), case.get('tie_seed', 0)))
         self.bus.attach(self)
+        self.HSched = HSched
+        self.sched = None
         with instrument.use_bus(self.bus):
             self.system = System()
             self.env = self.system.env
-            tt = [tuple(x) for x in case['timetable']]
-            cyc = case['cyclical']
-            if cyc is None:
-                self.sched = HSched(tt, name='sched')
-            else:
-                self.sched = HSched(tt, name='sched', is_cyclical=cyc)
+            if not case.get('late'):
+                self.make_scheduler()
         self.cyclical = True if case['cyclical'] is None else case['cyclical']
         self.objs = {n: Obj(n) for n in case['objects']}
         self.shadow = []          # [(obj, override?)] in registration order
@@ -74,6 +72,15 @@ class Run:
         self.midrun = 0
         self.end_reached = False
 
+    def make_scheduler(self):
+        case = self.case
+        tt = [tuple(x) for x in case['timetable']]
+        cyc = case['cyclical']
+        if cyc is None:
+            self.sched = self.HSched(tt, name='sched')
+        else:
+            self.sched = self.HSched(tt, name='sched', is_cyclical=cyc)
+
     def fail(self, name, msg):
         if not self.failed:
             self.failed = True
@@ -83,6 +90,8 @@ class Run:
         self.calls.append(('override', obj, (sched, obj, time, state)))
 
     def do_reg(self, op, midrun):
+        if self.sched is None:
+            return
         kind, name, ovr = op
         obj = self.objs[name]
         if kind == 'register':
@@ -153,7 +162,7 @@ class Run:
                 self.fail('action_outside_transition', f'actions {self.calls[:2]} ran outside a state change')
 
     def dispatched(self, ev):
-        if self.failed:
+        if self.failed or self.sched is None:
             return
         if action_name(ev.action) == '_update_state' and not ev.cancelled:
             self.expect_round(self.env.now, 'transition event')
@@ -166,7 +175,7 @@ class Run:
 
     def before_advance(self, env, t):
         # a transition that is due must have happened before the clock leaves the instant
-        if self.failed:
+        if self.failed or self.sched is None:
             return
         n = len(self.case['timetable'])
         if (self.cyclical or self.k < n) and self.t_next <= env.now and self.k > 0:
@@ -174,23 +183,34 @@ class Run:
 
     def run_begin(self, env, t0, d):
         # initialisation has just happened: the start-up round
-        if self.k == 0:
+        if self.k == 0 and self.sched is not None:
             self.shadow_at_dispatch = list(self.shadow)
             self.expect_round(env.now, 'start-up')
 
     def execute(self):
         case = self.case
         with instrument.use_bus(self.bus):
-            for op in case['pre']:
-                self.do_reg(op, False)
+            if not case.get('late'):
+                for op in case['pre']:
+                    self.do_reg(op, False)
             for t, prio, op in case['script']:
                 def act(op=op):
                     self.do_reg(op, True)
                 act.__name__ = 'script_' + op[0]
                 self.env.schedule_event(t, -2, act, prio)
             try:
-                for d in case['horizon']:
+                for n, d in enumerate(case['horizon']):
                     self.system.simulate(d, print_summary=False)
+                    if n == 0 and case.get('late'):
+                        # the scheduler is created between two simulate() calls: it starts at once
+                        # (start-up round at this instant, nobody registered yet), its timetable counts from now
+                        self.t_next = self.env.now
+                        self.t_start = self.env.now
+                        self.shadow_at_dispatch = []
+                        self.make_scheduler()
+                        self.expect_round(self.env.now, 'start-up of a scheduler created between two runs')
+                        for op in case['pre']:
+                            self.do_reg(op, False)
             except Exception as e:
                 import traceback
                 self.fail('crash', f'{type(e).__name__}: {e} {traceback.format_exc()[-1000:]}')
@@ -206,7 +226,7 @@ class Run:
         end = sum(self.case['horizon'])     # same float adds as consecutive runs
         end = self.env.now
         want = []
-        t = 0.0
+        t = getattr(self, 't_start', 0.0)
         k = 0
         while t <= end and (self.cyclical or k < n):
             dur, state = tt[k % n]
@@ -270,8 +290,11 @@ def gen_case(rng, tie):
         kind = rng.choice(['register', 'register', 'unregister'])
         script.append([t, rng.choice([2, 10, 11, 11.5, 10.5, 12]), [kind, rng.choice(names), rng.random() < 0.4]])
     script.sort(key=lambda e: e[0])
-    return {'engine': 'sched', 'timetable': tt, 'cyclical': cyc, 'horizon': hs, 'objects': names, 'pre': pre,
+    case = {'engine': 'sched', 'timetable': tt, 'cyclical': cyc, 'horizon': hs, 'objects': names, 'pre': pre,
             'script': script, 'tie': tie, 'tie_seed': rng.randrange(1 << 30)}
+    if len(hs) == 2 and rng.random() < 0.5:
+        case['late'] = True
+    return case
 
 
 def run_case(sh, case):
